@@ -95,6 +95,11 @@ def units(ctx):
     us += [_cu3(c, world_setup=_c3.setup)
            for c in _c3.predicate_contracts() + _c3.wrapper_contracts()
            if 'C08' in c.serves]
+    # host streams enter the expression lazily (convert_input_data)
+    from contracts import utils as _ut9
+    from vlib.pyvc.unit import contract_unit as _cu9
+    us += [_cu9(c, world_setup=_ut9.setup_input)
+           for c in _ut9.input_contracts() if 'C08' in c.serves]
     return us
 
 
